@@ -210,4 +210,16 @@ CHECKS = {
                 "(known findings); time bounds are observed, not proved",
         "technique": "Lean 4 proof (lock-discipline invariant by induction over request sequences, refutation witnesses) + regenerated tie lemmas + hostile-client scenarios in child processes with a probe client",
     },
+    "C18": {
+        "text": "Lean 4 theorem on the type layer of the IDL: for every type built from the basic keywords, Vec, Map, non-empty "
+                "Tuple and references whose names are type identifiers that do not begin with a keyword or a composite "
+                "prefix, the type parser (ordered choice, white-space skipping terminals, Many with separator) reads back "
+                "exactly what the SignatureIDL printers write, whatever legal text follows; the excluded cases are "
+                "witnessed (void, empty tuple, names beginning with a keyword); tied by the regenerated keyword list, "
+                "alternative order, composite shapes, identifier patterns and printer formats, and by differential runs "
+                "of types, whole meta-objects and fuzzed text through the real parser",
+        "note": "partial: the fn / sig / prop lines, //uid: comments, struct blocks and scope resolution are validated by the round-trip "
+                "oracle on generated meta-objects, not proved; parser totality is sampled",
+        "technique": "Lean 4 proof (print/parse round trip of the IDL type grammar by mutual induction) + regenerated tie lemmas + differential and round-trip runs, fuzzing in child processes",
+    },
 }
